@@ -242,7 +242,7 @@ def run_case(case):
             "table_entries": count_entries(), "errors": [e for e in errors if e],
             "finished": all(S.done), "blocked_switches": blocked, "lines": len(S.trace),
             "trace": S.trace[:60], "labels": labels,
-            "trace_full": S.trace[:600] if case["cls"] in ("Dimension", "Prefix", "Unit") else None}
+            "trace_full": S.trace[:600] if case["cls"] in ("Dimension", "Prefix", "Unit", "Logarithm", "LogUnit") else None}
 
 def run(data):
     return {"results": [run_case(c) for c in data["cases"]]}
